@@ -5,20 +5,18 @@ import os
 
 VERIF = os.path.dirname(os.path.dirname(os.path.abspath(__file__)))
 
-CLAIMED = {
-    # id: (design_ref, level text, level_note, technique)
-    "C20": ("DESIGN.md section 5 C20",
-            "Coq theorems over all Z: the wire lifetime never exceeds the request, is the largest representable "
-            "value below 10^6 ms (refuted, with witness, from 10^6 ms: known finding), is non-zero from 50 ms, decodes "
-            "to what was encoded, the indicated lifetime never exceeds it; hop-limit rules. The model is tied to the "
-            "code by differential execution: boundary sweep + 40k seeded values (quick), every millisecond 0..7 000 000 "
-            "through both the integer and the float path (thorough), all 256 codes, all hop limits x MIB defaults x "
-            "packet kinds through a real Router.",
-            "Coq kernel + vm_compute; extraction (ExtrOcamlBasic) and the OCaml driver; the hand-written model "
-            "Model/Lifetime.v is tied to the code by execution, not by proof; Python harness.",
-            "Coq proof (lia over Z, finite sweeps lifted by forallb_forall) + model/implementation correspondence"),
-}
+def load_claimed():
+    """manifest.d/Cxx.json: {"design_ref":..., "text":..., "note":..., "technique":...}"""
+    out = {}
+    d = os.path.join(VERIF, "manifest.d")
+    for f in sorted(os.listdir(d)):
+        if f.endswith(".json"):
+            e = json.load(open(os.path.join(d, f)))
+            out[f[:-5]] = (e["design_ref"], e["text"], e["note"], e["technique"])
+    return out
 
+
+CLAIMED = load_claimed()
 NOT_YET = {}
 
 
